@@ -12,11 +12,10 @@ CHECK = {
     'text': 'Theorems: for every valid vendor and class and EVERY transient id the generated names are one normal path component '
             '(spec_name_single_component, transient_name_single_component), and joining a single component (with or without the default extension) onto any '
             'directory spelling yields, in Clean\'s normal form, the directory\'s components extended by exactly that component (join_confined, '
-            'join_confined_ext); write and remove derive their target from the same function of (directories, name). The path models and the '
+            'join_confined_ext); filepath.Clean is idempotent for every path (clean_idempotent, via a normal-form invariant of the component stack) and therefore write and remove use the SAME path for every directory list and every name (write_path_eq_remove_path); a file of the highest priority wins for every device it defines unless a file of the same directory defines it too (resolves_to_written, with C01). The path models and the '
             'write/refresh/remove behaviour are tied to the code by real-directory scenarios with tree snapshots: exactly one file changes, directly inside '
             'the cleaned last directory, only ancestors of it are created, devices resolve to it at the highest priority, removal deletes exactly it, '
             'removing a missing name succeeds.',
-    'note': 'Trusted: Coq kernel + vm_compute; harness snapshots; filepath modelled and corresponded. Partial: idempotence of Clean on its own output '
-            '(with_default_ext (clean p) = p for target paths) is covered by the correspondence, not by a theorem. No axioms.',
+    'note': 'Trusted: Coq kernel + vm_compute; harness snapshots; filepath modelled and corresponded. No axioms.',
     'technique': 'Coq proof (strings, component-stack model of filepath.Clean) + differential correspondence on real directory trees via vm_compute',
 }
